@@ -43,9 +43,18 @@ func Scrub(b []byte) []byte {
 	for _, pattern := range scrubberPatterns {
 		// this is a workaround since go does not yet support look ahead or look
 		// behind for regular expressions.
-		scrubbedBytes = pattern.ReplaceAllFunc(scrubbedBytes, func(b []byte) []byte {
-			return addressRegexp.ReplaceAll(b, []byte("[scrubbed]"))
-		})
+		// A match consumes its right delimiter, which may also be the
+		// left delimiter of the next address ("1.2.3.4 5.6.7.8"), so
+		// repeat until nothing is left to replace.
+		for {
+			replaced := pattern.ReplaceAllFunc(scrubbedBytes, func(b []byte) []byte {
+				return addressRegexp.ReplaceAll(b, []byte("[scrubbed]"))
+			})
+			if bytes.Equal(replaced, scrubbedBytes) {
+				break
+			}
+			scrubbedBytes = replaced
+		}
 	}
 	return scrubbedBytes
 }
